@@ -17,7 +17,6 @@ import (
 	"time"
 
 	"gorm.io/gorm"
-	"gorm.io/gorm/utils/simhook"
 
 	"verif/sim/core"
 	"verif/sim/env"
@@ -366,17 +365,9 @@ func (p Prop) serial(c *Case) (*runResult, error) {
 	return rr, err
 }
 
-func installHooks(s *sched.Sched) {
-	simhook.YieldFn = s.Yield
-	simhook.WaitFn = s.Wait
-	simhook.SpawnFn = s.Spawn
-	simhook.GoStartFn = s.GoStart
-	simhook.GoEndFn = s.GoEnd
-}
+func installHooks(s *sched.Sched) { sched.SetActive(s) }
 
-func removeHooks() {
-	simhook.YieldFn, simhook.WaitFn, simhook.SpawnFn, simhook.GoStartFn, simhook.GoEndFn = nil, nil, nil, nil, nil
-}
+func removeHooks() { sched.SetActive(nil) }
 
 // concurrent runs the programs as tasks under the scheduler.
 func (p Prop) concurrent(c *Case) (*runResult, error) {
